@@ -412,7 +412,20 @@ class C12(Prop):
 
     # -- every built-in name of every built-in checker accepts every non-string
     def check_nonstring(self, case, res, d, cls):
+        import decimal
+        import fractions
         fc, _ = build_checker(d, case["checker"])
+        # numbers that json.loads(parse_float=Decimal) or a caller may hand over are non-strings as well
+        for x in (decimal.Decimal("1.5"), decimal.Decimal(3), fractions.Fraction(1, 3)):
+            for name in sorted(fc.checkers):
+                res.evals += 1
+                try:
+                    ok = fc.conforms(x, name)
+                except Exception as e:
+                    res.fail(("nonstring", "raises", name, impl.tname(e)), "instance=%r: %r" % (x, e))
+                    continue
+                if ok is not True:
+                    res.fail(("nonstring", "rejected", name), "format %r rejects the non-string %r" % (name, x))
         for x in case["instances"]:
             if isinstance(x, str):
                 continue
